@@ -419,7 +419,18 @@ def judge(case, obs):
 
 
 def aoh_default(case, obs):
-    return c05.aoh_default_governs_non_aoh(case6(case), obs)
+    """F-C05-1 met through C10's data clause: on the documents as written, or on the pair the
+    anchor policy hands to the merge proper (left / right replace anchored KEYS too, which can
+    make a key common to both Hashes: `{&x k1: 2}` + `{&x k2: [..]}` under anchors=right)"""
+    if c05.aoh_default_governs_non_aoh(case6(case), obs):
+        return True
+    if c05._aoh_default(case6(case)) not in ("left", "right"):
+        return False
+    try:
+        l, r = real_resolve(case)
+    except Exception:  # noqa
+        return False
+    return c05.aoh_governs_docs(case6(case), l, r)
 
 
 def anchored_container_as_array_element(case, obs):
